@@ -378,7 +378,7 @@ class C16(Property):
         "core/timex/relativetime.go and core/timex/ticker.go are replaced by overlays (virtual clock, hookable ticker); harness/overlay/collection/zz_verif_c16.go is added to package collection (Cache.size / key snapshot, one scripted action before the cache's single flight)",
         "Go maps, container/list, sync, singleflight (C07) are not modelled here; the timing wheel is C12's model",
         "tools/c16sim.py steers the generators (where the structure stands) and tools/c16hash.py picks keys that collide under murmur3 / FNV / CRC modulo small numbers; they judge nothing",
-        "take_gate / stress histories are put into their sequential order by tools/props/c16.py (flatten_cache, _stress_term); that this order is what the code's three-step Take does is Props.cache_take_held_is_take_after / cachew_take_held_is_take_after",
+        "take_gate / stress histories are put into their sequential order by tools/props/c16.py (flatten_cache, _stress_term); that this order is what the code's three-step Take does is Props.cache_take_held_is_take_after / cachew_take_held_is_take_after; that any interleaving of a stress history gives every goroutine the answers of the chosen sequential order is Props.cache_disjoint_ops_commute / map_disjoint_ops_commute / window_instant_adds_commute / queue_equal_puts_commute / ring_equal_adds_commute (given that each call is one critical section, which the race detector and the forced schedules check)",
     ]
     assumptions = ["keys and values are compared with Go == on int64/int/uint/uint64/string/nil (model: Z)",
                    "sequential theorems: operations on one object are sequential; concurrent use is covered by the linearisability "
